@@ -1,6 +1,8 @@
 package redisemu
 
 import (
+	"fmt"
+	"math"
 	"strings"
 	"time"
 )
@@ -85,7 +87,14 @@ func fnExpire(ctx *cmdContext, args map[string]any) (output respValue, err error
 	_, gt := args["condition.gt"]
 	_, lt := args["condition.lt"]
 
-	expiration := time.Now().Add(time.Duration(ttl) * time.Second)
+	// as redis: a time that does not fit 64-bit milliseconds is refused
+	if ttl > math.MaxInt64/1000 || ttl < math.MinInt64/1000 {
+		output.data = respErrorString(fmt.Sprintf("ERR invalid expire time in '%s' command", ctx.cmdName))
+		return
+	}
+	// (not via time.Duration, which wraps beyond 292 years)
+	now := time.Now()
+	expiration := time.Unix(now.Unix()+ttl, int64(now.Nanosecond()))
 
 	output = ctx.dsc.expire(keyName, expiration, nx, xx, gt, lt)
 	return
@@ -99,6 +108,10 @@ func fnExpireAt(ctx *cmdContext, args map[string]any) (output respValue, err err
 	_, gt := args["condition.gt"]
 	_, lt := args["condition.lt"]
 
+	if ttl > math.MaxInt64/1000 || ttl < math.MinInt64/1000 {
+		output.data = respErrorString(fmt.Sprintf("ERR invalid expire time in '%s' command", ctx.cmdName))
+		return
+	}
 	expiration := time.Unix(ttl, 0)
 
 	output = ctx.dsc.expire(keyName, expiration, nx, xx, gt, lt)
@@ -124,7 +137,14 @@ func fnPExpire(ctx *cmdContext, args map[string]any) (output respValue, err erro
 	_, gt := args["condition.gt"]
 	_, lt := args["condition.lt"]
 
-	expiration := time.Now().Add(time.Duration(ttl) * time.Millisecond)
+	now := time.Now()
+	nowMs := now.UnixMilli()
+	if ttl > math.MaxInt64-nowMs {
+		output.data = respErrorString(fmt.Sprintf("ERR invalid expire time in '%s' command", ctx.cmdName))
+		return
+	}
+	// (not via time.Duration, which wraps beyond 292 years)
+	expiration := time.UnixMilli(nowMs + ttl).Add(time.Duration(now.Nanosecond() % int(time.Millisecond)))
 
 	output = ctx.dsc.expire(keyName, expiration, nx, xx, gt, lt)
 	return
